@@ -176,7 +176,7 @@ impl Exec {
             }
         }
         // a binary op whose other operand is poisoned is not executed at all
-        if (t[0].ends_with(".union") || t[0].ends_with(".merge")) && t.len() >= 3 {
+        if (t[0].ends_with(".union") || t[0].ends_with(".merge") || t[0].ends_with(".clonefrom")) && t.len() >= 3 {
             if let Some(Inst::Poisoned) = self.insts.get(&pu(t[2])) {
                 return Some("poisoned".into());
             }
@@ -344,6 +344,34 @@ impl Exec {
         if op.ends_with(".clone") {
             let c = self.insts.get(&id).expect("unknown instance").clone();
             self.insts.insert(pu(t[2]), c);
+            return "ok".into();
+        }
+        if op.ends_with(".clonefrom") {
+            // Clone::clone_from (a structure may override it to reuse allocations): the receiver
+            // must afterwards be a copy of the source in every respect, hasher included
+            let src = self.other(t[2]);
+            let dst = self.insts.get_mut(&id).expect("unknown instance");
+            match (dst, src) {
+                (Inst::Hll(a), Inst::Hll(b)) => a.clone_from(&b),
+                (Inst::Bloom(a), Inst::Bloom(b)) => a.clone_from(&b),
+                (Inst::Cms(Cms::U8(a)), Inst::Cms(Cms::U8(b))) => a.clone_from(&b),
+                (Inst::Cms(Cms::U16(a)), Inst::Cms(Cms::U16(b))) => a.clone_from(&b),
+                (Inst::Cms(Cms::U32(a)), Inst::Cms(Cms::U32(b))) => a.clone_from(&b),
+                (Inst::Cms(Cms::U64(a)), Inst::Cms(Cms::U64(b))) => a.clone_from(&b),
+                (Inst::Cms(Cms::Usize(a)), Inst::Cms(Cms::Usize(b))) => a.clone_from(&b),
+                (Inst::Cuckoo(a), Inst::Cuckoo(b)) => a.clone_from(&b),
+                (Inst::Qf(a), Inst::Qf(b)) => a.clone_from(&b),
+                (Inst::Res(a), Inst::Res(b)) => a.clone_from(&b),
+                (Inst::Lossy(a), Inst::Lossy(b)) => a.clone_from(&b),
+                (Inst::Heap(a), Inst::Heap(b)) => a.clone_from(&b),
+                (Inst::Td(Td::K0(a)), Inst::Td(Td::K0(b))) => a.clone_from(&b),
+                (Inst::Td(Td::K1(a)), Inst::Td(Td::K1(b))) => a.clone_from(&b),
+                (Inst::Td(Td::K2(a)), Inst::Td(Td::K2(b))) => a.clone_from(&b),
+                (Inst::Td(Td::K3(a)), Inst::Td(Td::K3(b))) => a.clone_from(&b),
+                (Inst::Set(a), Inst::Set(b)) => a.clone_from(&b),
+                // different static types (counter width, scale function): plain assignment
+                (d, s) => *d = s,
+            }
             return "ok".into();
         }
         if op == "hll.rebuild" {
@@ -526,6 +554,12 @@ impl Exec {
                 r.extend(t[2..].iter().map(|x| pu(x)));
                 "ok".into()
             }
+            ("res.extendf", Inst::Res(r)) => {
+                // Extend through an iterator whose size_hint is inexact: items >= 2^40 are
+                // filtered out before they reach the sampler
+                r.extend(t[2..].iter().map(|x| pu(x)).filter(|x| *x < (1u64 << 40)));
+                "ok".into()
+            }
             ("res.get", Inst::Res(r)) => {
                 let v: Vec<String> = r.reservoir().iter().map(|x| x.to_string()).collect();
                 format!("{} {} : {}", r.k(), r.i(), v.join(" "))
@@ -537,6 +571,14 @@ impl Exec {
             }
             // LossyCounter ------------------------------------------------------------------
             ("lossy.add", Inst::Lossy(l)) => b(l.add(pu(t[2]))),
+            ("lossy.addrep", Inst::Lossy(l)) => {
+                // the same element n times (long histories in one line)
+                let mut last = false;
+                for _ in 0..pu(t[3]) {
+                    last = l.add(pu(t[2]));
+                }
+                format!("{} {}", b(last), l.n())
+            }
             ("lossy.query", Inst::Lossy(l)) => {
                 let mut v: Vec<u64> = l.query(pf(t[2])).collect();
                 v.sort();
